@@ -14,6 +14,15 @@ CHECKS = {
             'a cross-module leg compares with the layered solver on uniform incompressible bodies.',
             'Continuous parameters are covered on the grid only; the complex compliance J is taken from the legacy compliance '
             'functions (checked separately by C07).', 'DESIGN.md section 2, C12'),
+    'C13': ('model_checking', 'E2-histories',
+            'explicit-state BFS over operation histories on the real world/orbit objects (replay from fresh objects, canonical '
+            'state = logical state + deep fingerprint), invariant evaluated after every history',
+            'All histories over a 34-37 operation alphabet (setters, set_state through world and orbit, scalar and array values, '
+            'batched calls, fixed-Q/dt, layer temperature, time) up to the stated depth, then canonical-state BFS; after every '
+            'history the observables are compared with the logical reference model, with a fresh world placed directly in the '
+            'same state, and with the functional API, in 7 tidal configurations (CPL/CTL/layered, spin-locked or free, 1 and 2 tidal layers).',
+            'Bounded depth and fixed value menu; merging of states relies on the deep fingerprint covering every attribute that can '
+            'influence the future; functional oracle uses the library mode tables (C08/C09/C10 check those).', 'DESIGN.md section 2, C13'),
 }
 
 NOT_APPLICABLE = {}
